@@ -2,7 +2,7 @@
 (* Family "genwhole": a selected type with one unmappable field at any depth, with and without its exclusion, next to a healthy type.  Serves C18. *)
 EXTENDS GenShapes, TLC, Json
 CONSTANTS MCDeep, MCLong
-VARIABLES sh, M, obj, tf, dg, pn, pc, hist, viol, aux
+VARIABLES sh, M, Mi, obj, tf, dg, pn, pc, hist, viol, aux
 MCShapes == GenWholeShapes(MCLong)
 MCProps == {"C18", "C03", "C02"}
 MCScript == <<"SetObj", "NewEmpty", "CopyTo">>
